@@ -1,5 +1,5 @@
-\* simulation: histories of 10 calls, six values, up to 6 handles, arrays up to 4
-SPECIFICATION Spec
+\* simulation (SimSpec: one printed behaviour per random trace): histories of 10 calls, six values, up to 6 handles, arrays up to 4
+SPECIFICATION SimSpec
 CONSTANTS
   Vals <- SmallVals
   Dflts <- SomeDflts
@@ -10,5 +10,4 @@ CONSTANTS
   EchoToks <- NoToks
   PushKeepsRefs = FALSE
   MaxHist = 10
-CONSTRAINT Emit
 INVARIANTS TypeOK LiveHandlesResolve StoreLoadIdentity OneOwnerPerDoc OwnerAliveIffNotGone
